@@ -119,7 +119,7 @@ func c16One(self, probe string, c c16Case) c16Obs {
 		return o
 	}
 	defer os.RemoveAll(dir)
-	nonce := fmt.Sprintf("vqc16x%dx%d", os.Getpid(), c.ID)
+	nonce := fmt.Sprintf("vqc16x%dx%dz", os.Getpid(), c.ID)
 	cj, _ := json.Marshal(c)
 	cmd := exec.Command(self, "c16ctl", probe, string(cj), dir, nonce)
 	cmd.Stderr = os.Stderr
